@@ -422,6 +422,30 @@ def gen_case(streams, prop, tier):
             "spec": spec, "program": steps, "faults": {"seed": 0, "rates": {}, "off": []}}
 
 
+def gen_default(streams, prop):
+    """The bundled default_en.txt + constants_en.txt, copied to the scratch disk, loaded through several
+    paths and compared with what the independent reader (sim/defs_reader.py) says the files mean."""
+    pr = streams.get("program")
+    numtype = pr.choice(["float", "float", "Fraction", "Decimal"])
+    steps = [{"k": "load", "path": pr.choice(["resource", "file", "file_cache"]), "dir": "A"}]
+    for _ in range(pr.choice([1, 2, 3])):
+        r = pr.random()
+        if r < 0.55:
+            steps.append({"k": "load", "path": pr.choice(["file_cache", "file_cache", "file", "resource"]), "dir": "A"})
+        elif r < 0.75:
+            steps.append({"k": "torn", "json": pr.choice(["complete", "absent", "cut"]),
+                          "pickle": pr.choice(["absent", "empty", "cut", "allbut1"]), "which": pr.getrandbits(16), "cut": pr.random()})
+        elif r < 0.9:
+            steps.append({"k": "rm_cache"})
+        else:
+            steps.append({"k": "load", "path": "file_cache", "dir": "A", "numtype": pr.choice(["float", "Fraction", "Decimal"])})
+    steps.append({"k": "load", "path": "file_cache", "dir": "A"})
+    for i, st in enumerate(steps):
+        st["id"] = i + 1
+    return {"world": "loading", "prop": prop, "kind": "default", "knobs": {"numtype": numtype}, "program": steps,
+            "faults": {"seed": 0, "rates": {}, "off": []}}
+
+
 def gen_illformed(streams, prop):
     pr = streams.get("program")
     name = pr.choice(sorted(ILLFORMED))
@@ -441,6 +465,8 @@ class LoadingWorld:
     def generate(self, streams, tier, index):
         if index % 8 == 7:
             return gen_illformed(streams, self.prop)
+        if index % 10 == 3:
+            return gen_default(streams, self.prop)
         return gen_case(streams, self.prop, tier)
 
     def run_case(self, case, col, log=None):
@@ -457,6 +483,9 @@ class LoadingWorld:
         return None
 
     def sample(self, case):
+        if case["kind"] == "default":
+            return {"index": case["index"], "kind": "default (bundled default_en.txt + constants_en.txt)",
+                    "knobs": case["knobs"], "program": case["program"]}
         if case["kind"] == "illformed":
             return {"index": case["index"], "kind": "illformed", "statement": ILLFORMED[case["ill"]][0], "paths": case["paths"]}
         import random
@@ -475,7 +504,11 @@ class LoadingWorld:
                      "events (torn cache entry, ENOSPC/EIO while writing or reading the cache, edited main file, edited "
                      "import, same text in another directory with another import, other numeric type on the same cache "
                      "folder, cache deleted). illformed case = one statement of the property's list of ill-formed kinds "
-                     "inserted into a small valid file and loaded through six paths. distinct_nontrivial = distinct "
+                     "inserted into a small valid file and loaded through six paths. default case (1 run in 10) = the bundled "
+                     "default_en.txt + constants_en.txt copied to the scratch disk and loaded as resource / file / file+cache "
+                     "(cold, warm, torn; float, Fraction, Decimal): root factor, root units and dimensionality of all 402 units, "
+                     "the canonical name of all 945 spellings and all 72 prefix factors are compared with an independent reader of "
+                     "the file syntax (sim/defs_reader.py: own tokenizer and evaluator). distinct_nontrivial = distinct "
                      "(step kind, loading path, cache state before the step, outcome) other than a first plain file load."),
             "trivial": lambda t: t.startswith("load|file|none|ok"),
             "real": ["pint definition parser, registry construction and read-only API from /repo", "flexparser", "flexcache",
@@ -498,6 +531,8 @@ class LoadingWorld:
         for cand in ddmin_list(prog):
             if any(s["k"] == "load" for s in cand):
                 yield dict(case, program=cand)
+        if case["kind"] == "default":
+            return
         lay = case["knobs"]["layout"]
         for k, v in (("files", 1), ("comments", False), ("spacing", False), ("permute", False)):
             if lay.get(k) != v:
@@ -599,6 +634,8 @@ class _Run:
     def execute(self):
         if self.case["kind"] == "illformed":
             return self.execute_illformed()
+        if self.case["kind"] == "default":
+            return self.execute_default()
         import random
 
         case = self.case
@@ -788,6 +825,107 @@ class _Run:
                         self.log.ev(step["id"], "copy_dir", tf, u["name"])
                         return
         self.log.ev(step["id"], "copy_dir", None)
+
+    # ------------------------------------------------------------ the bundled definition files
+    def execute_default(self):
+        from ..defs_reader import NumericTable
+
+        case = self.case
+        src = os.path.join(core.PINT_PATH, "pint")
+        d = os.path.join(self.root, "A")
+        os.makedirs(d)
+        for f in ("default_en.txt", "constants_en.txt"):
+            shutil.copy(os.path.join(src, f), os.path.join(d, f))
+        main = os.path.join(d, "default_en.txt")
+        table = NumericTable.from_file(main)
+        expected = {}
+        for name in table.defs:
+            f, dims, roots = table.root(name)
+            expected[name] = [f, sorted([k, float(v)] for k, v in dims.items()), sorted([k, float(v)] for k, v in roots.items())]
+        names_expected = dict(table.names.unit_spellings())
+        prefixes_expected = {sp: table.names.prefixes[pn]["factor"] for sp, pn in table.names.prefix_spellings().items() if sp}
+        for step in case["program"]:
+            self.col.steps += 1
+            self.cur = step["id"]
+            k = step["k"]
+            if k == "torn":
+                self.tear(step)
+                continue
+            if k == "rm_cache":
+                shutil.rmtree(self.cache, ignore_errors=True)
+                self.poisoned = False
+                self.cache_state = "none"
+                self.col.fault("cache_deleted")
+                continue
+            numtype = step.get("numtype", case["knobs"]["numtype"])
+            uses_cache = step["path"] == "file_cache"
+            before = self.cache_state if uses_cache else "none"
+
+            def child():
+                import pint
+
+                kw = {"non_int_type": NUMTYPES[numtype]}
+                if uses_cache:
+                    kw["cache_folder"] = self.cache
+                try:
+                    ureg = pint.UnitRegistry(**kw) if step["path"] == "resource" else pint.UnitRegistry(main, **kw)
+                except Exception as e:
+                    return {"outcome": "raised:" + exc_name(e), "msg": str(e)[:300]}
+                got = {}
+                for name in expected:
+                    try:
+                        f, u = ureg.get_root_units(name, check_nonmult=False)
+                        dd = ureg.get_dimensionality(name)
+                        got[name] = [float(f), sorted([k2, float(dd[k2])] for k2 in dd), sorted([k2, float(u._units[k2])] for k2 in u._units)]
+                    except Exception as e:
+                        got[name] = "exc:" + exc_name(e)
+                names = {}
+                for sp in names_expected:
+                    try:
+                        names[sp] = ureg.get_name(sp)
+                    except Exception as e:
+                        names[sp] = "exc:" + exc_name(e)
+                prefixes = {}
+                for sp in prefixes_expected:
+                    try:
+                        prefixes[sp] = float(ureg.Quantity(1, sp + "meter").to("meter").magnitude)
+                    except Exception as e:
+                        prefixes[sp] = "exc:" + exc_name(e)
+                compat = sorted(norm_units(x)[0][0] for x in ureg.get_compatible_units("meter"))
+                return {"outcome": "ok", "root": got, "names": names, "prefixes": prefixes, "compat_meter": len(compat)}
+
+            res = core.fork_eval(child)
+            out = res["outcome"]
+            faulted = uses_cache and self.poisoned
+            self.col.trans("load-default", step["path"], before, out if out == "ok" else "raised", numtype)
+            self.log.ev(step["id"], "load-default", step["path"], numtype, out)
+            if out != "ok":
+                if not faulted:
+                    raise Violation("C10.load-raised", step["id"], {"path": step["path"], "dir": "default", "numtype": numtype,
+                                                                    "exc": out, "msg": res.get("msg"), "cache": before})
+                self.col.probe("load_raised_under_fault:" + out.split(":")[-1])
+                continue
+            if uses_cache:
+                self.cache_state = "warm" if not self.poisoned else "poisoned"
+            diffs = []
+            for name, want in expected.items():
+                g = res["root"].get(name)
+                if isinstance(g, str) or not (core.num_close(float(g[0]), float(want[0]), 1e-9) and g[1] == want[1] and g[2] == want[2]):
+                    diffs.append(["root", name, want, g])
+            for sp, want in names_expected.items():
+                if res["names"].get(sp) != want:
+                    diffs.append(["names", sp, want, res["names"].get(sp)])
+            for sp, want in prefixes_expected.items():
+                g = res["prefixes"].get(sp)
+                if isinstance(g, str) or not core.num_close(float(g), float(want), 1e-9):
+                    diffs.append(["prefix", sp, float(want), g])
+            if res["compat_meter"] < 10:
+                diffs.append(["compat", "meter", ">= 10 units of length", res["compat_meter"]])
+            self.col.checks += len(expected) + len(names_expected) + len(prefixes_expected)
+            if diffs:
+                raise Violation("C10.meaning", step["id"], {
+                    "path": step["path"], "dir": "default", "numtype": numtype, "cache_before": before, "io_fault": None,
+                    "differences(section,key,expected,got)": diffs[:6], "n_differences": len(diffs)})
 
     # ------------------------------------------------------------ ill-formed definitions
     def execute_illformed(self):
